@@ -185,6 +185,39 @@ theorem C14_code_hull_back (s : St) (hl : s.LinksOK) (ha : s.AnchorsOK) (ho : s.
 
 example : exFive.hullIterBack = [9, 1, 3, 11, 13] ∧ exFive.hullIterFront = [13, 11, 3, 1, 9] := by decide
 
+/-- consumed from both ends in turn (the harness' third drain, pattern `mixPattern`): on every valid
+    state a permutation of the hull model's list — each hull edge exactly once -/
+theorem C14_code_hull_mixed (s : St) (hl : s.LinksOK) (ha : s.AnchorsOK) (ho : s.OuterCycleOK)
+    (hpos : 0 < s.nE) : s.hullIterMixed.Perm s.hullIter := by
+  obtain ⟨e0, hf, he0, hfc0⟩ := outer_anchor s ha hpos hl.2.1
+  have hfe : s.fe 0 = e0 := by simp [St.fe, hf]
+  have hiter : s.hullIter = orbit s.nxt e0 s.nE e0 := by simp [St.hullIter, hf]
+  let P : Nat → Prop := fun x => x < s.nE ∧ s.fc x = 0
+  have hstep : ∀ x, P x → P (s.nxt x) := by
+    intro x ⟨hx, hfx⟩
+    have := hl.2.2.2.2 x hx
+    exact ⟨this.2.1, by rw [this.2.2.2.2.2.2.2.1]; exact hfx⟩
+  have hinv : ∀ x, P x → s.prv (s.nxt x) = x := by
+    intro x ⟨hx, _⟩
+    exact (hl.2.2.2.2 x hx).2.2.2.2.2.1
+  have hclosed : orbitClosed s.nxt e0 (orbit s.nxt e0 s.nE e0) := by
+    have := (ho hpos).1
+    rw [hfe] at this; exact this
+  have hc := orbit_isCycle s.nxt s.prv P hstep hinv e0 ⟨he0, hfc0⟩ s.nE hclosed
+  have hle := orbit_length_le s.nxt e0 s.nE e0
+  have hm := CI_drainMixed_spec hc (s.nE + 1) 0 0 _ 0 (CI_new_inv hc)
+  have hp := mixSpec_perm (fun i => iter s.nxt i e0) (orbit s.nxt e0 s.nE e0).length (s.nE + 1) 0 0 0
+    (by omega) (by omega)
+  unfold St.hullIterMixed St.hullCI
+  simp only [hf]
+  rw [hiter, orbit_eq_map_iter s.nxt e0 s.nE, List.range_eq_range']
+  have e : CI.new (iter s.nxt 0 e0) = CI.new e0 := rfl
+  rw [e] at hm
+  rw [hm]
+  simpa using hp
+
+example : exFive.hullIterMixed = [13, 9, 1, 11, 3] := by decide
+
 /-- an empty iterator (`new_empty`, used when there is no hull / no out edge) answers `None` at once -/
 theorem C14_code_empty (step back : Nat → Nat) (e : Nat) :
     (CI.newEmpty e).next step = (CI.newEmpty e, none) ∧ (CI.newEmpty e).nextBack back = (CI.newEmpty e, none) := by
